@@ -337,7 +337,9 @@ theorem mimc7_HashBytes_ok_true (b : List UInt8) : mimc7_HashBytes_ok b = true :
   generalize hH : mimc7_Hash = H
   as_aux_lemma =>
     dsimp only
-    rw [req_of (by decide), req_of h31]
+    have hcap : decide ((0 : Int) ≤ Go.idiv (Go.len b) 31 + 1) = true := by
+      rw [GoBridge.Mimc7.idiv_len]; exact decide_eq_true (by omega)
+    rw [req_of (by decide), req_of h31, req_of hcap, req_of h31]
     generalize hr : Go.forRangeRet _ _ _ _ = r
     obtain ⟨h1, -⟩ := forRangeRet_inv (fun _ : List Int => True) hr trivial (by
         intro i l hi1 hi2 _
